@@ -345,6 +345,21 @@ func genCluster(rng *rand.Rand) *clusterIn {
 		for i := range in.Gateways {
 			in.Gateways[i].V = pickV()
 		}
+		// the same gateway name declared in another version too, possibly with another class
+		if rng.Intn(3) == 0 && len(in.Gateways) > 0 {
+			g := in.Gateways[rng.Intn(len(in.Gateways))]
+			for _, v := range in.Enabled {
+				if v != g.V {
+					g2 := g
+					g2.V = v
+					if rng.Intn(3) == 0 {
+						g2.Class = "other"
+					}
+					in.Gateways = append(in.Gateways, g2)
+					break
+				}
+			}
+		}
 		for i := range in.Routes {
 			if !in.Routes[i].TCP {
 				in.Routes[i].V = pickV()
